@@ -921,4 +921,437 @@ theorem serializeV0_spec (b : Array Nat) (h : Header) (p : PlanIn) (toV0 : Bool)
   exact ⟨packChild_leaves _ _ j _ hp2 hl1, by simp⟩
 
 
+
+theorem storeObj_spec (st : StoreIn) (innerMaps : List (List Nat)) (pk : List Obj) (o : Obj) (pk1 : List Obj)
+    (h : storeObj st innerMaps pk = .ok (some (o, pk1))) (wf : WF pk) :
+    WF pk1 ∧ Ext pk pk1 ∧ ObjOk o pk1.length := by
+  unfold storeObj at h
+  split at h
+  · simp only [pure, Except.pure] at h; cases h
+  split at h
+  · cases h
+  rename_i axisCount regions hreg
+  obtain ⟨refs, hrefs, h⟩ := bind_ok h
+  split at h
+  · simp only [pure, Except.pure] at h; cases h
+  obtain ⟨out, hout, h⟩ := bind_ok h
+  obtain ⟨⟨ts, pk'⟩, heach, h⟩ := bind_ok h
+  simp only [pure, Except.pure] at h
+  cases h
+  obtain ⟨wf1, e1, hlen, hall⟩ := packEach_spec (fun (o : Obj) pk => (pure (o, pk) : R (Obj × List Obj)))
+    (fun _ _ _ => True) (by intros; trivial) _ pk ts pk1
+    (by
+      intro a ha pk0 o0 pk01 hb wf0
+      simp only [pure, Except.pure] at hb
+      cases hb
+      have hleaf : a.links = [] := by
+        simp only [List.mem_cons, List.mem_map] at ha
+        rcases ha with ha | ⟨sub, _, ha⟩
+        · subst ha; rfl
+        · subst ha; rfl
+      refine ⟨wf0, Ext.refl _, ?_, fun _ _ _ _ _ => trivial⟩
+      obtain ⟨ab, al⟩ := a
+      simp only at hleaf
+      subst hleaf
+      exact ObjOk.leaf _ _)
+    heach wf
+  simp only [List.length_cons, List.length_map] at hlen
+  refine ⟨wf1, e1, ?_, ?_, ?_⟩
+  · intro l hl
+    simp only [List.mem_cons] at hl
+    rcases hl with hl | hl
+    · subst hl
+      cases ts with
+      | nil => simp at hlen
+      | cons t0 ts' =>
+        have := (hall 0 (by simp) (by simp)).1
+        simpa using this
+    · obtain ⟨k, hk, e⟩ := mem_linksAt hl
+      subst e
+      have hk2 : k + 1 < ts.length := by simp at hk; omega
+      have := (hall (k + 1) (by simp; omega) hk2).1
+      simp only [List.getElem_tail]
+      exact this
+  · intro l hl
+    simp only [List.length_append, beBytes_length, List.length_cons, List.length_nil, List.length_replicate]
+    simp only [List.mem_cons] at hl
+    rcases hl with hl | hl
+    · subst hl; simp only; omega
+    · obtain ⟨k, hk, e⟩ := mem_linksAt hl
+      subst e
+      simp only [List.length_tail] at hk
+      simp only; omega
+  · unfold SortedLinks
+    refine List.pairwise_cons.mpr ⟨?_, sorted_linksAt 8 4 4 _ (by omega)⟩
+    intro l hl
+    obtain ⟨k, hk, e⟩ := mem_linksAt hl
+    subst e
+    left; simp only; omega
+
+/-- what `linkTable` does -/
+theorem linkTable_spec (r : R (Option (Obj × List Obj))) (pos : Nat) (links : List Link) (pk : List Obj)
+    (links' : List Link) (pk' : List Obj) (h : linkTable r pos links pk = .ok (links', pk')) :
+    (r = .ok none ∧ links' = links ∧ pk' = pk) ∨
+    (∃ o pko i, r = .ok (some (o, pko)) ∧ packChild pko o = .ok (i, pk') ∧ links' = links ++ [⟨pos, 4, i⟩]) := by
+  unfold linkTable at h
+  obtain ⟨x, hr, h⟩ := bind_ok h
+  cases x with
+  | none =>
+    simp only [pure, Except.pure] at h
+    cases h
+    exact Or.inl ⟨hr, rfl, rfl⟩
+  | some opk =>
+    obtain ⟨o, pko⟩ := opk
+    simp only [] at h
+    obtain ⟨⟨i, pk2⟩, hp, h⟩ := bind_ok h
+    simp only [pure, Except.pure] at h
+    cases h
+    exact Or.inr ⟨o, pko, i, hr, hp, rfl⟩
+
+
+
+theorem map_some_ok {α} {x : R α} {a : Option α} (h : x.map some = .ok a) : ∃ v, a = some v ∧ x = .ok v := by
+  cases x with
+  | error e => cases h
+  | ok v => simp only [Except.map] at h; cases h; exact ⟨v, rfl, rfl⟩
+
+/-- `clipListObj` only appends objects -/
+theorem clipListObj_ext (b : Array Nat) (p : PlanIn) (off : Nat) (clips : List (Nat × Nat × Nat))
+    (pk : List Obj) (o : Obj) (pk1 : List Obj) (h : clipListObj b p off clips pk = .ok (some (o, pk1))) :
+    Ext pk pk1 := by
+  unfold clipListObj at h
+  split at h
+  · simp only [pure, Except.pure] at h; cases h
+  simp only [] at h
+  split at h
+  · cases h
+  obtain ⟨⟨ts, pk'⟩, heach, h⟩ := bind_ok h
+  simp only [pure, Except.pure] at h
+  cases h
+  exact packEach_ext _ (by
+    intro a pk0 o0 pk01 hb
+    obtain ⟨bo, _, hb⟩ := bind_ok hb
+    simp only [pure, Except.pure] at hb
+    cases hb
+    exact Ext.refl _) _ _ _ _ heach
+
+/-- the facts about the BaseGlyphList object -/
+def BglFacts (p : PlanIn) (b : Array Nat) (bglOff : Nat) (bglRecs : List (Nat × Nat)) (ob : Obj)
+    (pkF : List Obj) : Prop :=
+  ob.bytes = beBytes 4 ((keptRecs p bglRecs).length % 4294967296) ++
+      (keptRecs p bglRecs).flatMap (fun r => beBytes 2 ((p.glyphMap.lookup r.1).getD 0) ++ [0, 0, 0, 0]) ∧
+  ∀ k (hk : k < (keptRecs p bglRecs).length),
+    (p.glyphMap.lookup (keptRecs p bglRecs)[k].1).isSome ∧
+    ∃ i, linkAt ob.links (6 + k * 6) = some i ∧
+      PaintAt p b (paintFuel b) (bglOff + (keptRecs p bglRecs)[k].2) i pkF
+
+/-- the facts about the LayerList object -/
+def LayerFacts (p : PlanIn) (b : Array Nat) (lOff n : Nat) (ol : Obj) (pkF : List Obj) : Prop :=
+  ol.bytes = beBytes 4 (p.layers.length % 4294967296) ++ List.replicate (4 * (keptLayers p n).length) 0 ∧
+  ∀ k (hk : k < (keptLayers p n).length),
+    ∃ c i, resolveOff b 4 lOff (4 + 4 * (keptLayers p n)[k]) = some c ∧ paintOk b c = true ∧
+      linkAt ol.links (4 + k * 4) = some i ∧ PaintAt p b (paintFuel b) c i pkF
+
+theorem v1Tables_spec (b : Array Nat) (p : PlanIn) (bglOff : Nat) (bglRecs : List (Nat × Nat))
+    (lOff cOff mOff sOff : Nat) (links : List Link) (pk : List Obj) (links' : List Link) (pkF : List Obj)
+    (h : v1Tables b p bglOff bglRecs lOff cOff mOff sOff links pk = .ok (links', pkF))
+    (wf : WF pk) (hlinks : ∀ l ∈ links, l.pos = 4 ∨ l.pos = 8) :
+    (∃ ib ob, linkAt links' 14 = some ib ∧ pkF[ib]? = some ob ∧ BglFacts p b bglOff bglRecs ob pkF) ∧
+    (lOff ≠ 0 → p.layers ≠ [] →
+      ∃ n il ol, rd 4 b lOff = some n ∧ linkAt links' 18 = some il ∧ pkF[il]? = some ol ∧
+        LayerFacts p b lOff n ol pkF) := by
+  unfold v1Tables at h
+  obtain ⟨⟨l1, pk1⟩, hs1, h⟩ := bind_ok h
+  obtain ⟨⟨l2, pk2⟩, hs2, h⟩ := bind_ok h
+  obtain ⟨⟨l3, pk3⟩, hs3, h⟩ := bind_ok h
+  obtain ⟨⟨l4, pk4⟩, hs4, h⟩ := bind_ok h
+  simp only [] at hs2 hs3 hs4 h
+  -- step 1: the variation store
+  have st1 : WF pk1 ∧ Ext pk pk1 ∧ ∀ l ∈ l1, l.pos = 4 ∨ l.pos = 8 ∨ l.pos = 30 := by
+    split at hs1
+    · simp only [pure, Except.pure] at hs1; cases hs1
+      exact ⟨wf, Ext.refl _, fun l hl => by rcases hlinks l hl with h | h <;> simp [h]⟩
+    · split at hs1
+      · cases hs1
+      rename_i st hst
+      rcases linkTable_spec _ _ _ _ _ _ hs1 with ⟨_, e1, e2⟩ | ⟨o, pko, i, hr, hp, hle⟩
+      · subst e1; subst e2
+        exact ⟨wf, Ext.refl _, fun l hl => by rcases hlinks l hl with h | h <;> simp [h]⟩
+      · obtain ⟨w, e, ok⟩ := storeObj_spec _ _ _ _ _ hr wf
+        obtain ⟨w2, e2, _⟩ := packChild_spec _ _ _ _ hp w ok
+        refine ⟨w2, e.trans e2, ?_⟩
+        intro l hl
+        rw [hle] at hl
+        simp only [List.mem_append, List.mem_singleton] at hl
+        rcases hl with hl | hl
+        · rcases hlinks l hl with h | h <;> simp [h]
+        · subst hl; simp
+  obtain ⟨wf1, e1, hl1⟩ := st1
+  -- step 2: the BaseGlyphList
+  rcases linkTable_spec _ _ _ _ _ _ hs2 with ⟨hr, _, _⟩ | ⟨ob, pkb, ib, hr, hp, hl2⟩
+  · obtain ⟨v, hv, _⟩ := map_some_ok hr; cases hv
+  obtain ⟨v, hv, hbl⟩ := map_some_ok hr
+  cases hv
+  obtain ⟨wfb, eb, okb, hbytes, hfacts⟩ := baseListObj_spec _ _ _ _ _ _ _ hbl wf1
+  obtain ⟨wf2, e2, hget2⟩ := packChild_spec _ _ _ _ hp wfb okb
+  -- everything later only extends the packed list
+  have hib : ib < pk2.length := by
+    by_cases hi : ib < pk2.length
+    · exact hi
+    · rw [List.getElem?_eq_none (by omega)] at hget2; cases hget2
+  have hla14 : ∀ post, linkAt (l1 ++ [⟨14, 4, ib⟩] ++ post) 14 = some ib := by
+    intro post
+    rw [List.append_assoc, linkAt_append_of_none _ _ _ (by
+      intro l hl
+      rcases hl1 l hl with h | h | h <;> omega)]
+    exact linkAt_cons_same _ _ _ _
+  -- step 3: the LayerList
+  have st3 : WF pk3 ∧ Ext pk2 pk3 ∧ (∃ post, l3 = l2 ++ post ∧ ∀ l ∈ post, l.pos = 18) ∧
+      (lOff ≠ 0 → p.layers ≠ [] → ∃ n il ol, rd 4 b lOff = some n ∧ linkAt l3 18 = some il ∧
+        pk3[il]? = some ol ∧ LayerFacts p b lOff n ol pk3) := by
+    split at hs3
+    · rename_i hl0
+      simp only [pure, Except.pure] at hs3; cases hs3
+      exact ⟨wf2, Ext.refl _, ⟨[], by simp, by simp⟩, fun hne => absurd hl0 hne⟩
+    · split at hs3
+      · cases hs3
+      split at hs3
+      · cases hs3
+      rename_i n hn
+      split at hs3
+      · cases hs3
+      rcases linkTable_spec _ _ _ _ _ _ hs3 with ⟨hr, el, ep⟩ | ⟨ol, pkl, il, hr, hp3, hl3⟩
+      · subst el; subst ep
+        refine ⟨wf2, Ext.refl _, ⟨[], by simp, by simp⟩, ?_⟩
+        intro _ hne
+        -- an empty result means no retained layer
+        unfold layerListObj at hr
+        split at hr
+        · rename_i hemp
+          exact absurd (by simpa using hemp) hne
+        · obtain ⟨tp, _, hr⟩ := bind_ok hr
+          simp only [pure, Except.pure] at hr
+          cases hr
+      · obtain ⟨wfl, el, okl, hlb, hlf⟩ := layerListObj_spec _ _ _ _ _ _ _ hr wf2
+        obtain ⟨wf3, e3, hget3⟩ := packChild_spec _ _ _ _ hp3 wfl okl
+        refine ⟨wf3, el.trans e3, ⟨[⟨18, 4, il⟩], hl3, by simp⟩, ?_⟩
+        intro _ _
+        refine ⟨n, il, ol, hn, ?_, hget3, hlb, ?_⟩
+        · rw [hl3, hl2, linkAt_append_of_none _ _ _ (by
+            intro l hl
+            simp only [List.mem_append, List.mem_singleton] at hl
+            rcases hl with hl | hl
+            · rcases hl1 l hl with h | h | h <;> omega
+            · subst hl; simp)]
+          exact linkAt_cons_same _ _ _ _
+        · intro k hk
+          obtain ⟨c, i, h1, h2, h3, h4⟩ := hlf k hk
+          exact ⟨c, i, h1, h2, h3, h4.mono' e3 wfl⟩
+  obtain ⟨wf3, e3, ⟨post3, hl3, hpost3⟩, hlayer⟩ := st3
+  -- steps 4 and 5 only extend
+  have st4 : Ext pk3 pk4 ∧ ∃ post, l4 = l3 ++ post ∧ ∀ l ∈ post, l.pos = 22 := by
+    split at hs4
+    · simp only [pure, Except.pure] at hs4; cases hs4; exact ⟨Ext.refl _, [], by simp, by simp⟩
+    · split at hs4
+      · cases hs4
+      split at hs4
+      · cases hs4
+      rcases linkTable_spec _ _ _ _ _ _ hs4 with ⟨_, el, ep⟩ | ⟨oc, pkc, ic, hr, hp4, hl4⟩
+      · subst el; subst ep; exact ⟨Ext.refl _, [], by simp, by simp⟩
+      · exact ⟨(clipListObj_ext _ _ _ _ _ _ _ hr).trans (packChild_ext _ _ _ _ hp4).1, [⟨22, 4, ic⟩], hl4, by simp⟩
+  obtain ⟨e4, post4, hl4, hpost4⟩ := st4
+  have st5 : Ext pk4 pkF ∧ ∃ post, links' = l4 ++ post ∧ ∀ l ∈ post, l.pos = 26 := by
+    split at h
+    · simp only [pure, Except.pure] at h; cases h; exact ⟨Ext.refl _, [], by simp, by simp⟩
+    · split at h
+      · cases h
+      · simp only [pure, Except.pure] at h; cases h; exact ⟨Ext.refl _, [], by simp, by simp⟩
+      · rcases linkTable_spec _ _ _ _ _ _ h with ⟨_, el, ep⟩ | ⟨om, pkm, im, hr, hp5, hl5⟩
+        · subst el; subst ep; exact ⟨Ext.refl _, [], by simp, by simp⟩
+        · obtain ⟨mp, _, hr⟩ := bind_ok hr
+          have hpkm : pkm = pk4 := by
+            cases mp with
+            | none => simp only [pure, Except.pure] at hr; cases hr
+            | some mp' =>
+              simp only [] at hr
+              obtain ⟨mo, _, hr⟩ := bind_ok hr
+              simp only [pure, Except.pure] at hr
+              cases hr; rfl
+          subst hpkm
+          exact ⟨(packChild_ext _ _ _ _ hp5).1, [⟨26, 4, im⟩], hl5, by simp⟩
+  obtain ⟨e5, post5, hl5, hpost5⟩ := st5
+  have e35 : Ext pk3 pkF := e4.trans e5
+  constructor
+  · -- BaseGlyphList
+    refine ⟨ib, ob, ?_, ?_, hbytes, ?_⟩
+    · rw [hl5, hl4, hl3, hl2]
+      have := hla14 (post3 ++ post4 ++ post5)
+      simpa [List.append_assoc] using this
+    · rw [(e3.trans e35).getElem? hib]; exact hget2
+    · intro k hk
+      obtain ⟨h1, i, h2, h3⟩ := hfacts k hk
+      exact ⟨h1, i, h2, h3.mono' (e2.trans (e3.trans e35)) wfb⟩
+  · -- LayerList
+    intro hl0 hne
+    obtain ⟨n, il, ol, hn, hla, hget, hlb, hlf⟩ := hlayer hl0 hne
+    have hil : il < pk3.length := by
+      by_cases hi : il < pk3.length
+      · exact hi
+      · rw [List.getElem?_eq_none (by omega)] at hget; cases hget
+    refine ⟨n, il, ol, hn, ?_, by rw [e35.getElem? hil]; exact hget, hlb, ?_⟩
+    · -- the later links sit at 22 and 26
+      unfold linkAt at hla ⊢
+      rw [hl5, hl4, List.append_assoc, List.find?_append]
+      cases hf : l3.find? (·.pos = 18) with
+      | none => rw [hf] at hla; cases hla
+      | some l => rw [hf] at hla; simpa using hla
+    · intro k hk
+      obtain ⟨c, i, h1, h2, h3, h4⟩ := hlf k hk
+      exact ⟨c, i, h1, h2, h3, h4.mono' e35 wf3⟩
+
+
+/-- the COLRv1 part of a successful `Colr::subset` run that keeps a COLRv1 glyph -/
+theorem colrObjects_v1 (b : Array Nat) (p : PlanIn) (packed : List Obj) (root : Obj)
+    (h : colrObjects b p = .ok (packed, root))
+    (hd : Header) (hhd : readHeader b = some hd)
+    (bglOff lOff cOff mOff sOff : Nat) (hv1 : hd.v1 = some (bglOff, lOff, cOff, mOff, sOff))
+    (bglRecs : List (Nat × Nat)) (hoff : bglOff ≠ 0) (hrecs : baseGlyphPaintRecords b bglOff = some bglRecs)
+    (hkeep : (bglRecs.any fun r => p.colred.contains r.1) = true) :
+    (∃ ib ob, linkAt root.links 14 = some ib ∧ packed[ib]? = some ob ∧
+      BglFacts p b bglOff bglRecs ob packed) ∧
+    (lOff ≠ 0 → p.layers ≠ [] →
+      ∃ n il ol, rd 4 b lOff = some n ∧ linkAt root.links 18 = some il ∧ packed[il]? = some ol ∧
+        LayerFacts p b lOff n ol packed) := by
+  unfold colrObjects at h
+  rw [hhd] at h
+  simp only [] at h
+  obtain ⟨bgl, hbgl, h⟩ := bind_ok h
+  -- the BaseGlyphList was read
+  have hbgl' : bgl = some (bglOff, bglRecs) := by
+    unfold readBaseGlyphList at hbgl
+    rw [hv1] at hbgl
+    simp only [] at hbgl
+    rw [if_neg hoff] at hbgl
+    split at hbgl
+    · cases hbgl
+    · rw [hrecs] at hbgl
+      simp only [pure, Except.pure] at hbgl
+      cases hbgl; rfl
+  subst hbgl'
+  have htov0 : downgradeToV0 p (some (bglOff, bglRecs)) = false := by
+    simp only [downgradeToV0, hkeep, Bool.not_true]
+  rw [htov0] at h
+  obtain ⟨⟨hdr, links0, pk0⟩, hv0, h⟩ := bind_ok h
+  simp only [Bool.false_eq_true, if_false, hv1] at h
+  obtain ⟨⟨links', pkF⟩, hv1t, h⟩ := bind_ok h
+  simp only [pure, Except.pure] at h
+  cases h
+  obtain ⟨hleaves, hpos⟩ := serializeV0_spec _ _ _ _ _ _ _ hv0
+  exact v1Tables_spec b p bglOff bglRecs lOff cOff mOff sOff links0 pk0 links' packed hv1t
+    (WF_of_leaves _ hleaves) hpos
+
+
+
+/-! ## COLR version 0 records -/
+
+/-- number of layers of the first `k` records -/
+def layersBefore (kept : List (Nat × Nat × Nat)) (k : Nat) : Nat := ((kept.take k).map (·.2.2)).sum
+
+theorem baseRecordsGo_spec (p : PlanIn) :
+    ∀ (kept : List (Nat × Nat × Nat)) (total : Nat) (rs : List (Nat × Nat × Nat)) (t : Nat),
+      baseRecordsGo p kept total = .ok (rs, t) →
+      rs.length = kept.length ∧ t = total + layersBefore kept kept.length ∧
+      ∀ k (hk : k < kept.length) (hk' : k < rs.length),
+        p.glyphMap.lookup kept[k].1 = some rs[k].1 ∧ rs[k].2.1 = total + layersBefore kept k ∧
+        rs[k].2.2 = kept[k].2.2
+  | [], total, rs, t, h => by
+    simp only [baseRecordsGo, pure, Except.pure] at h
+    cases h
+    exact ⟨rfl, by simp [layersBefore], fun k hk => absurd hk (by simp)⟩
+  | (g, f, n) :: rest, total, rs, t, h => by
+    simp only [baseRecordsGo] at h
+    split at h
+    · cases h
+    rename_i ng hng
+    split at h
+    · cases h
+    rename_i hfit
+    obtain ⟨⟨rs', t'⟩, hrest, h⟩ := bind_ok h
+    simp only [pure, Except.pure] at h
+    cases h
+    obtain ⟨hl, ht, hall⟩ := baseRecordsGo_spec p rest (total + n) rs' t hrest
+    refine ⟨by simp [hl], ?_, ?_⟩
+    · rw [ht]; simp [layersBefore, List.take_succ_cons]; omega
+    · intro k hk hk'
+      cases k with
+      | zero => simp [layersBefore, hng]
+      | succ k =>
+        obtain ⟨a, b', c⟩ := hall k (by simpa using hk) (by simpa using hk')
+        simp only [List.getElem_cons_succ]
+        refine ⟨a, ?_, c⟩
+        rw [b']
+        simp [layersBefore, List.take_succ_cons]; omega
+
+theorem layerRange_spec (p : PlanIn) (layers : List (Nat × Nat)) :
+    ∀ (n f : Nat) (r : List (Nat × Nat)), layerRange p layers f n = .ok r →
+      r.length = n ∧ ∀ j (hj : j < n) (hj' : j < r.length), ∃ g pi, layers[f + j]? = some (g, pi) ∧
+        p.glyphMap.lookup g = some r[j].1 ∧ p.palettes.lookup pi = some r[j].2
+  | 0, f, r, h => by
+    simp only [layerRange, pure, Except.pure] at h
+    cases h
+    exact ⟨rfl, fun j hj => absurd hj (by simp)⟩
+  | n + 1, f, r, h => by
+    simp only [layerRange] at h
+    split at h
+    · cases h
+    rename_i g pi hget
+    split at h
+    · rename_i ng npi hng hnpi
+      obtain ⟨r', hrest, h⟩ := bind_ok h
+      simp only [pure, Except.pure] at h
+      cases h
+      obtain ⟨hl, hall⟩ := layerRange_spec p layers n (f + 1) r' hrest
+      refine ⟨by simp [hl], ?_⟩
+      intro j hj hj'
+      cases j with
+      | zero => exact ⟨g, pi, by simpa using hget, by simpa using hng, by simpa using hnpi⟩
+      | succ j =>
+        obtain ⟨g', pi', h1, h2, h3⟩ := hall j (by omega) (by simpa using hj')
+        exact ⟨g', pi', by rw [← h1]; congr 1; omega, by simpa using h2, by simpa using h3⟩
+    · cases h
+
+theorem layersGo_spec (p : PlanIn) (layers : List (Nat × Nat)) :
+    ∀ (kept : List (Nat × Nat × Nat)) (lb : List (Nat × Nat)), layersGo p layers kept = .ok lb →
+      lb.length = layersBefore kept kept.length ∧
+      ∀ k (hk : k < kept.length), ∃ r, layerRange p layers kept[k].2.1 kept[k].2.2 = .ok r ∧
+        (lb.drop (layersBefore kept k)).take kept[k].2.2 = r
+  | [], lb, h => by
+    simp only [layersGo, pure, Except.pure] at h
+    cases h
+    exact ⟨by simp [layersBefore], fun k hk => absurd hk (by simp)⟩
+  | (g, f, n) :: rest, lb, h => by
+    simp only [layersGo] at h
+    obtain ⟨a, ha, h⟩ := bind_ok h
+    obtain ⟨r', hrest, h⟩ := bind_ok h
+    simp only [pure, Except.pure] at h
+    cases h
+    obtain ⟨hal, _⟩ := layerRange_spec p layers n f a ha
+    obtain ⟨hl, hall⟩ := layersGo_spec p layers rest r' hrest
+    refine ⟨by simp [hl, hal, layersBefore, List.take_succ_cons], ?_⟩
+    intro k hk
+    cases k with
+    | zero =>
+      refine ⟨a, ha, ?_⟩
+      simp only [layersBefore, List.take_zero, List.map_nil, List.sum_nil, List.drop_zero, List.getElem_cons_zero]
+      rw [← hal, List.take_left' rfl]
+    | succ k =>
+      obtain ⟨r, hr, hdt⟩ := hall k (by simpa using hk)
+      refine ⟨r, by simpa using hr, ?_⟩
+      simp only [List.getElem_cons_succ]
+      rw [← hdt]
+      have : layersBefore ((g, f, n) :: rest) (k + 1) = a.length + layersBefore rest k := by
+        simp [layersBefore, List.take_succ_cons, hal]
+      rw [this, drop_append_len]
+
+
 end FontVerif.SubsetColr
